@@ -68,16 +68,29 @@ def discharge(eng, obligations, timeout_s=10, jobs=None, solvers=None):
             txt = script_for(eng, ob, **kw)
             if txt not in stages:
                 stages.append(txt)
+        weak_txt = script_for(eng, ob, keep_quantifiers=False, extra_terms=True, unfold=True)
+        if weak_txt not in stages:
+            stages.insert(min(2, len(stages)), weak_txt)
         secs = 0.0
+        weak = None
         for k, txt in enumerate(stages):
             r = solve.solve(txt, timeout_s=timeout_s if k == len(stages) - 1 else min(timeout_s, 6), solvers=solvers, tmpdir=tmpdir)
             secs += r.seconds
+            if txt == weak_txt and r.status == "sat":
+                weak = r
             # a model of weakened hypotheses is not a counterexample: only the last (full) stage may refute
             if r.status == "unsat" or k == len(stages) - 1:
                 break
         r.seconds = secs
         status = {"unsat": "proved", "sat": "refuted"}.get(r.status, "undecided")
-        return dict(ob=ob, status=status, solver=r.solver, seconds=r.seconds, per_solver=r.per_solver, output=r.output)
+        out = dict(ob=ob, status=status, solver=r.solver, seconds=r.seconds, per_solver=r.per_solver, output=r.output)
+        if status == "undecided" and weak is not None:
+            # all hypotheses kept, quantified ones instantiated at the goal's terms, recursive specs
+            # unfolded at the terms that occur: satisfiable, with a model
+            out["weak_sat"] = True
+            out["weak_output"] = weak.output
+            out["weak_solver"] = weak.solver
+        return out
 
     # each query starts up to 3 solver processes
     with ThreadPoolExecutor(max_workers=max(1, jobs // 2)) as ex:
